@@ -402,6 +402,8 @@ func (e *Engine) Express(interest *ndn.EncodedInterest, callback ndn.ExpressCall
 	deadline := e.timer.Now().Add(lifetime)
 
 	// Inject interest into PIT
+	var node *NameTrie[pitEntry]
+	var pending *pendInt
 	func() {
 		e.pitLock.Lock()
 		defer e.pitLock.Unlock()
@@ -441,12 +443,38 @@ func (e *Engine) Express(interest *ndn.EncodedInterest, callback ndn.ExpressCall
 			timeoutCancel: e.timer.Schedule(lifetime+TimeoutMargin, timeoutFunc),
 		}
 		n.SetValue(append(n.Value(), entry))
+		node, pending = n, entry
 	}()
 
 	// Send interest
 	err := e.face.Send(interest.Wire)
 	if err != nil {
 		e.log.Errorf("Failed to send Interest: %v", err)
+		// The error is the resolution of this Interest: withdraw the pending entry,
+		// so that the callback is not invoked on top of it.
+		func() {
+			e.pitLock.Lock()
+			defer e.pitLock.Unlock()
+			lst := node.Value()
+			newLst := make([]*pendInt, 0, len(lst))
+			found := false
+			for _, entry := range lst {
+				if entry == pending {
+					found = true
+				} else {
+					newLst = append(newLst, entry)
+				}
+			}
+			if !found {
+				// Already resolved (and the callback invoked) in the meantime
+				return
+			}
+			pending.timeoutCancel()
+			node.SetValue(newLst)
+			node.DeleteIf(func(lst []*pendInt) bool {
+				return len(lst) == 0
+			})
+		}()
 	} else if e.log.Level <= log.TraceLevel {
 		e.log.WithField("name", finalName.String()).
 			Trace("Interest sent.")
